@@ -21,7 +21,8 @@ CONSTANTS Reserved,     \* gapic.utils.reserved_names.RESERVED_NAMES
 ControlParams == {"metadata", "retry", "timeout", "request"}
 FieldPositions == {"top_field", "nested_field", "flattened_param", "http_path_top", "http_path_dotted", "http_body", "routing_field",
                    "flattened_dotted",     \* method_signature entry "inner.<word>": the parameter is <word>_, it sets request.inner.<word>_
-                   "http_path_sibling"}    \* uri ".../{<word>_id=*}/...{<word>=items/*}": only the variable NAMED <word> is rewritten
+                   "http_path_sibling",
+                   "routing_template"}     \* explicit routing parameter with a path template naming the segment {<word>=items/*}: the header KEY stays <word>    \* uri ".../{<word>_id=*}/...{<word>=items/*}": only the variable NAMED <word> is rewritten
 Positions == FieldPositions \cup {"rpc_name", "proto_file"}
 
 \* which words make sense in which position
